@@ -620,7 +620,7 @@ fn cross_party(w: &mut Worker, spec: &RepoSpec, d: &DelegSpec, wr: &Written, rep
 pub fn run(cfg: &Cfg) -> i32 {
     let start = Instant::now();
     let _ = crate::keys::pool();
-    let n = cfg.tier.pick(600u64, 8_000);
+    let n = cfg.tier.pick(600u64, 60_000);
     let budget = cfg.tier.pick(Duration::from_secs(500), Duration::from_secs(2800));
     let ev = par_run(cfg, n, budget, |w, i| Some(run_case(w, i)));
     let mut required: Vec<String> = vec![
